@@ -36,6 +36,17 @@ pub static QUIET: AtomicBool = AtomicBool::new(false);
 pub static FAULT_PAYLOAD: AtomicU32 = AtomicU32::new(0);
 /// predicate by identity instead of by slot mask: the predicate accepts exactly these ids (u64::MAX = unused)
 pub static PRED_IDS: [AtomicU64; 2] = [AtomicU64::new(u64::MAX), AtomicU64::new(u64::MAX)];
+/// how flat_map expansions are produced: 0 = a container built inside the closure (all children exist when it
+/// returns), 1 = a lazy iterator (a child comes into existence when `next()` asks for it), 2 = a lazy iterator that
+/// never ends (its children cycle through all 64 slots, so every expansion contains elements of every slot)
+pub static EXP_MODE: AtomicU32 = AtomicU32::new(0);
+/// children handed out by expansions (all modes)
+pub static EXP_PRODUCED: AtomicU64 = AtomicU64::new(0);
+/// an expansion was advanced more than RUNAWAY_LIMIT times (it then ends, so that the execution terminates)
+pub static EXP_RUNAWAY: AtomicBool = AtomicBool::new(false);
+pub const RUNAWAY_LIMIT: u32 = 5_000;
+/// number of children of an endless expansion the reference model looks at (every slot occurs among them)
+pub const ENDLESS_MODEL_CHILDREN: u32 = 70;
 
 thread_local! {
     static CP_COUNT: std::cell::Cell<u32> = const { std::cell::Cell::new(0) };
@@ -65,6 +76,9 @@ pub fn reset() {
     FAULT_PAYLOAD.store(0, SeqCst);
     PRED_IDS[0].store(u64::MAX, SeqCst);
     PRED_IDS[1].store(u64::MAX, SeqCst);
+    EXP_MODE.store(0, SeqCst);
+    EXP_PRODUCED.store(0, SeqCst);
+    EXP_RUNAWAY.store(false, SeqCst);
     CP_COUNT.with(|c| c.set(0));
     N_CALLS.store(0, SeqCst);
     CALLS.lock().unwrap_or_else(|e| e.into_inner()).clear();
@@ -85,14 +99,17 @@ pub fn enc_fault(stage: u8, id: u64) -> u64 {
 
 // ---- pure semantics shared by the real closures and the reference model ----
 
-pub fn label(stage: u8, id: u64, k: u8) -> u64 {
+pub fn label(stage: u8, id: u64, k: u32) -> u64 {
     (id << 5) | ((stage as u64 + 1) << 2) | (k as u64 & 3)
 }
 pub fn keep(stage: u8, slot: u8) -> bool {
     (FMASK[stage as usize].load(SeqCst) >> (slot & 63)) & 1 == 1
 }
-pub fn n_children(stage: u8, slot: u8) -> u8 {
-    ((EXPAND[stage as usize].load(SeqCst) >> (2 * (slot as u32 & 31))) & 3) as u8
+pub fn n_children(stage: u8, slot: u8) -> u32 {
+    if EXP_MODE.load(SeqCst) == 2 {
+        return ENDLESS_MODEL_CHILDREN;
+    }
+    ((EXPAND[stage as usize].load(SeqCst) >> (2 * (slot as u32 & 31))) & 3) as u32
 }
 /// the find / any / all predicate: by identity if PRED_IDS is set, else by slot mask
 pub fn pred_accepts(id: u64, slot: u8) -> bool {
@@ -103,7 +120,7 @@ pub fn pred_accepts(id: u64, slot: u8) -> bool {
         keep(ST_PRED, slot)
     }
 }
-pub fn child_slot(slot: u8, k: u8) -> u8 {
+pub fn child_slot(slot: u8, k: u32) -> u8 {
     ((slot as u32 * 3 + k as u32) & 63) as u8
 }
 
@@ -173,12 +190,58 @@ pub fn f<I: Item>(stage: u8) -> impl Fn(&I) -> bool + Clone + Send + Sync {
     }
 }
 
-pub fn x<I: Item>(stage: u8) -> impl Fn(I) -> Vec<Tok> + Clone + Send + Sync {
+/// The expansion a flat_map closure returns (see EXP_MODE).
+pub enum Exp {
+    Eager(std::vec::IntoIter<Tok>),
+    Lazy { stage: u8, id: u64, slot: u8, k: u32, n: u32 },
+}
+
+impl Iterator for Exp {
+    type Item = Tok;
+    fn next(&mut self) -> Option<Tok> {
+        let out = match self {
+            Exp::Eager(it) => it.next(),
+            Exp::Lazy { stage, id, slot, k, n } => {
+                if *k >= *n {
+                    None
+                } else if *k >= RUNAWAY_LIMIT {
+                    EXP_RUNAWAY.store(true, SeqCst);
+                    *n = 0;
+                    None
+                } else {
+                    let t = Tok::new(label(*stage, *id, *k), child_slot(*slot, *k));
+                    *k += 1;
+                    Some(t)
+                }
+            }
+        };
+        if out.is_some() {
+            EXP_PRODUCED.fetch_add(1, SeqCst);
+        }
+        out
+    }
+    fn size_hint(&self) -> (usize, Option<usize>) {
+        match self {
+            Exp::Eager(it) => it.size_hint(),
+            Exp::Lazy { k, n, .. } if *n == u32::MAX => (usize::MAX, None),
+            Exp::Lazy { k, n, .. } => ((*n - *k.min(n)) as usize, Some((*n - *k.min(n)) as usize)),
+        }
+    }
+}
+
+pub fn x<I: Item>(stage: u8) -> impl Fn(I) -> Exp + Clone + Send + Sync {
     move |x: I| {
         let (id, slot) = (x.id(), x.slot());
         let _f = enter(stage, id);
-        let n = n_children(stage, slot);
-        let out = (0..n).map(|k| Tok::new(label(stage, id, k), child_slot(slot, k))).collect();
+        let out = match EXP_MODE.load(SeqCst) {
+            0 => {
+                let n = n_children(stage, slot);
+                let v: Vec<Tok> = (0..n).map(|k| Tok::new(label(stage, id, k), child_slot(slot, k))).collect();
+                Exp::Eager(v.into_iter())
+            }
+            1 => Exp::Lazy { stage, id, slot, k: 0, n: n_children(stage, slot) },
+            _ => Exp::Lazy { stage, id, slot, k: 0, n: u32::MAX },
+        };
         drop(x);
         out
     }
